@@ -22,6 +22,7 @@ RegionOf(xq) == IF xq > 900000 THEN "edge" ELSE IF xq < 5000 THEN "low" ELSE "bu
 \* "listing": the SAME node set written in another order in the card (descending; a refinement made by appending the new
 \* nodes to the old list) is the same grid: the prediction does not move (1e-8)
 Cap(name, region) ==
+  IF name = "below" THEN 1 ELSE      \* (a request below the lowest node has no prediction on that grid: it is refused, recorded as 0)
   IF name = "listing" THEN 10 ELSE
   \* "tiny": two grids reaching 1e-7 compared at x between 1e-7 and 5e-5, the x chosen a few 1e-9 away from nodes of ONE of them
   \* (measured on the pinned tree: 2.6e-6 .. 5.4e-6; an absolute tolerance of 1e-8 in x is 10 % of x there)
